@@ -43,6 +43,17 @@ class Sym:
         return f"Sym<{self.kind}:{self.t}>"
 
 
+class MaybeUnbound:
+    """a local variable bound on only one side of a merged `if`: bound iff cond holds (reading it otherwise raises UnboundLocalError)"""
+    __slots__ = ("cond", "val")
+
+    def __init__(self, cond, val):
+        self.cond, self.val = cond, val
+
+    def __repr__(self):
+        return f"MaybeUnbound<{self.val!r}>"
+
+
 class Opt:
     """value that may be None: none is a z3 Bool, val is the non-None alternative"""
     __slots__ = ("none", "val")
